@@ -242,7 +242,7 @@ func c14Fresh(c *core.Ctx, args []string) int {
 	for k, a := range args {
 		v, _ := strconv.Atoi(a)
 		op := opFromInt(v)
-		name, ext := fmt.Sprintf("x/e%d", k+1), fmt.Sprintf(".e%d", k+1)
+		name, ext := extName(k), fmt.Sprintf(".e%d", k+1)
 		if op.Dup {
 			name = "x/dup"
 		}
